@@ -433,12 +433,60 @@ TABLE.update({
 PENDING = []
 
 
+_SW = ("the scripts of mc/checks/wide.py (DESIGN.md 2.5) are run for every "
+       "n in 0..40, 63..66, 127..129, 255..257 (thorough: ..1025) with "
+       "every operand size k in {0,1,2,n/8,n/8+1,n/2,n-1,n}: ")
+MAGNITUDE = {
+    "C03": _SW + "five owning relations x target owner in the same IR / "
+    "another IR / unattached x 16 set operations and constructors, module "
+    "lists of n modules; UUID tables of both IRs against reachability.",
+    "C04": _SW + "as C03 with the both-ends oracle.",
+    "C16": _SW + "as C03 with the built-in set/list/dict shadows; binary "
+    "operators must not mutate; mapping of n expressions.",
+    "C05": _SW + "an interval of n blocks, cold / warm index x six edit "
+    "batches, all lookups at four scopes against a fresh scan.",
+    "C12": _SW + "as C05 (warm vs cold index must agree with the scan).",
+    "C06": _SW + "a section of n intervals: extents and lookups after "
+    "discard/re-add, bulk moves, address edits.",
+    "C13": _SW + "n expressions dense (step 2, 8) and sparse, unit and "
+    "stepped queries at four scopes.",
+    "C10": _SW + "n symbols of one name / one referent added one by one, "
+    "renamed, retargeted, moved, discarded.",
+    "C11": _SW + "CFGs of n edges, operands given as set, frozenset, keys "
+    "view, list and CFG.",
+    "C18": "large IRs (9/17/33/70 children in every container): equal "
+    "copies by independent construction and by load, 29 single perturbations.",
+    "C19": "stored bytes followed by 0..12288 zero bytes through save+load "
+    "(page-sized tails), block views.",
+    "C17": "1 and 2 MiB files with every header fault through "
+    "load_protobuf_file and load_protobuf(path).",
+    "C07": "containers of every length 0..69 and 127..4097 for every leaf "
+    "type (sequence, set, mapping key / value, nested in tuple / sequence / "
+    "mapping<_,set<_>>).",
+    "C08": "the C07 long containers, byte for byte.",
+    "C14": "tables of 1000-2100 entries through every action sequence.",
+    "C15": "names with up to 1000 fields, nesting depth 200, 8192-character "
+    "names and the sanctioned AuxData schemas, each also with one delimiter "
+    "dropped / doubled / swapped.",
+    "C01": "four large IRs (9/17/33/70 children everywhere, 4 KiB data + 8 KiB "
+    "zero tail, tables of 300-1100 elements with negative values).",
+    "C02": "the large IRs of C01 in both directions.",
+    "C09": "the large IRs of C01 (set<UUID> / sequence<UUID> of up to 70 "
+    "attached nodes).",
+}
+
+
 def build():
     checks = []
     na = []
     for pid in sorted(set(TABLE) | set(PENDING)):
         if pid in TABLE and TABLE[pid][0]:
             _, cat, tech, text, note, ref = TABLE[pid]
+            if pid in MAGNITUDE:
+                text = text + " MAGNITUDE: " + MAGNITUDE[pid]
+                tech = tech + "; plus a parametric magnitude sweep (every "\
+                    "size of a boundary-dense list x every operand size x "\
+                    "every operation of a fixed script, same oracles)"
             checks.append(
                 {
                     "property_id": pid,
